@@ -274,8 +274,11 @@ class Schedule:
         self.seq = as_seq(seq)
         self.pos = 0
 
+    def peek(self):
+        return self.seq[min(self.pos, len(self.seq) - 1)]
+
     def next(self):
-        v = self.seq[min(self.pos, len(self.seq) - 1)]
+        v = self.peek()
         self.pos += 1
         return v
 
@@ -302,9 +305,8 @@ class Run:
     pass
 
 
-def execute(case, stage_hook=None):
-    """Build the Hamiltonian, run the configured solve() stages, return measurements.
-    stage_hook(run, stage_index) is called after every stage with run.* filled in."""
+def prepare(case):
+    """Build the Hamiltonian, its dense reference and spectrum, and the DMRG object of a case (no sweep yet)."""
     import quimb as qu
 
     Q = qtn()
@@ -356,8 +358,8 @@ def execute(case, stage_hook=None):
     bd0 = cfg.get("bond_dims")
     if bd0 is None:
         bd0 = list(range(10, 1001, 10)) if r.bsz == 1 else [8, 16, 32, 64, 128, 256, 512, 1024]
-    bsched = Schedule(bd0)
-    csched = Schedule(cfg["cutoffs"] if cfg.get("cutoffs") is not None else cut_default)
+    r.bsched = Schedule(bd0)
+    r.csched = Schedule(cfg["cutoffs"] if cfg.get("cutoffs") is not None else cut_default)
     r.caps, r.cuts, r.dirs, r.first = [], [], [], []
     r.p0_bond = int(p0.max_bond()) if p0 is not None else int(as_seq(bd0)[0])
     r.mpo_real_any = any(not np.iscomplexobj(t.data) for t in ham)
@@ -365,51 +367,65 @@ def execute(case, stage_hook=None):
     r.dense_opt = (cfg.get("opts") or {}).get("local_eig_ham_dense")
     r.stage_ends = []
     r.converged = None
-    for si, stg in enumerate(cfg["stages"]):
-        skw = dict(tol=float(stg["tol_rel"]) * scale, max_sweeps=int(stg["max_sweeps"]))
-        if stg.get("bond_dims") is not None:
-            skw["bond_dims"] = stg["bond_dims"]
-            bsched = Schedule(stg["bond_dims"])
-        if stg.get("cutoffs") is not None:
-            skw["cutoffs"] = stg["cutoffs"]
-            csched = Schedule(stg["cutoffs"])
-        if stg.get("sweep_sequence") is not None:
-            skw["sweep_sequence"] = stg["sweep_sequence"]
-        n0 = len(dm.energies)
-        try:
-            r.converged = bool(dm.solve(**skw))
-        except Exception as e:
-            if type(e).__name__ != "ArpackNoConvergence":
-                raise
-            # the local eigensolve gave up: classify by whether this call runs a one-site sweep straight after a bond
-            # expansion without re-canonisation (known defect C10-c makes the effective problem singular there)
-            seq = skw.get("sweep_sequence") or dm.opts["default_sweep_sequence"]
-            planned = [seq[k % len(seq)] for k in range(skw["max_sweeps"])]
-            alt = bool(r.bsz == 1 and any(a != b for a, b in zip(planned, planned[1:])))
-            if not alt and r.local_eig_tol < 1e-6:
-                # scipy's documented refusal when the caller asks Lanczos (ncv=4) for more accuracy than it reaches in 10*N restarts
-                raise Reject("ArpackNoConvergence at a user-tightened local_eig_tol")
-            raise Violation("local-eigensolve-failed", bsz=r.bsz, alt_expand_planned=alt, which=r.which, msg=str(e)[:80])
-        n1 = len(dm.energies)
-        if not (1 <= n1 - n0 <= skw["max_sweeps"]):
-            raise Violation("sweep-count", got=n1 - n0, max_sweeps=skw["max_sweeps"])
-        seq = skw.get("sweep_sequence") or dm.opts["default_sweep_sequence"]
-        for k in range(n1 - n0):
-            r.caps.append(int(bsched.next()))
-            r.cuts.append(float(csched.next()))
-            r.dirs.append(seq[k % len(seq)])
-            r.first.append(k == 0)
-        r.stage_ends.append(n1 - 1)
-        if len(dm.total_energies) != n1 or len(dm.local_energies) != n1:
-            raise Violation("bookkeeping", what="lengths", energies=n1, total=len(dm.total_energies), local=len(dm.local_energies))
+    return r
+
+
+def execute(case, stage_hook=None):
+    """Build the Hamiltonian, run the configured solve() stages, return measurements.
+    stage_hook(run, stage_index) is called after every stage with run.* filled in."""
+    r = prepare(case)
+    for si, stg in enumerate(case["dmrg"]["stages"]):
+        run_solve(r, stg)
         measure(r)
         if stage_hook is not None:
             stage_hook(r, si)
     return r
 
 
-def measure(r):
-    """Dense measurements of the state DMRG currently returns."""
+def run_solve(r, stg):
+    """One solve() call on r.dm with the book-keeping model (caps / cutoffs / directions per executed sweep)."""
+    dm, scale = r.dm, r.scale
+    skw = dict(tol=float(stg["tol_rel"]) * scale, max_sweeps=int(stg["max_sweeps"]))
+    if stg.get("bond_dims") is not None:
+        skw["bond_dims"] = stg["bond_dims"]
+        r.bsched = Schedule(stg["bond_dims"])
+    if stg.get("cutoffs") is not None:
+        skw["cutoffs"] = stg["cutoffs"]
+        r.csched = Schedule(stg["cutoffs"])
+    if stg.get("sweep_sequence") is not None:
+        skw["sweep_sequence"] = stg["sweep_sequence"]
+    n0 = len(dm.energies)
+    try:
+        r.converged = bool(dm.solve(**skw))
+    except Exception as e:
+        if type(e).__name__ != "ArpackNoConvergence":
+            raise
+        # the local eigensolve gave up: classify by whether this call runs a one-site sweep straight after a bond
+        # expansion without re-canonisation (known defect C10-c makes the effective problem singular there)
+        seq = skw.get("sweep_sequence") or dm.opts["default_sweep_sequence"]
+        planned = [seq[k % len(seq)] for k in range(skw["max_sweeps"])]
+        alt = bool(r.bsz == 1 and any(a != b for a, b in zip(planned, planned[1:])))
+        if not alt and r.local_eig_tol < 1e-6:
+            # scipy's documented refusal when the caller asks Lanczos (ncv=4) for more accuracy than it reaches in 10*N restarts
+            raise Reject("ArpackNoConvergence at a user-tightened local_eig_tol")
+        raise Violation("local-eigensolve-failed", bsz=r.bsz, alt_expand_planned=alt, which=r.which, msg=str(e)[:80])
+    n1 = len(dm.energies)
+    if not (1 <= n1 - n0 <= skw["max_sweeps"]):
+        raise Violation("sweep-count", got=n1 - n0, max_sweeps=skw["max_sweeps"])
+    seq = skw.get("sweep_sequence") or dm.opts["default_sweep_sequence"]
+    for k in range(n1 - n0):
+        r.caps.append(int(r.bsched.next()))
+        r.cuts.append(float(r.csched.next()))
+        r.dirs.append(seq[k % len(seq)])
+        r.first.append(k == 0)
+    r.stage_ends.append(n1 - 1)
+    if len(dm.total_energies) != len(r.caps) or len(dm.local_energies) != len(r.caps):
+        raise Violation("bookkeeping", what="lengths", energies=n1, total=len(dm.total_energies), local=len(dm.local_energies))
+    return n1 - n0
+
+
+def measure(r, E=None):
+    """Dense measurements of the state DMRG currently returns (E: the energy the last call reported, default dm.energy)."""
     dm, Hd = r.dm, r.Hd
     psi = dm.state
     pd = np.asarray(psi.to_dense()).reshape(-1).astype(complex)
@@ -425,7 +441,7 @@ def measure(r):
     r.e_norm = r.e_unnorm / n2
     r.e_conj_unnorm = float(np.vdot(pd.conj(), Hd @ pd.conj()).real)
     r.e_conj_norm = r.e_conj_unnorm / n2
-    r.E = complex(dm.energy)
+    r.E = complex(dm.energy if E is None else E)
     r.max_bond = int(psi.max_bond())
     return r
 
@@ -1018,6 +1034,180 @@ def run_periodic(case):
 
 
 # ---------------------------------------------------------------------------
+# 7. histories: several calls on ONE DMRG object, every clause after every call
+# ---------------------------------------------------------------------------
+
+HSEQ = [None, "R", "L", "RL", "LR", "RRL"]
+
+
+@st.composite
+def s_case_history(draw, tier):
+    quick = tier == "quick"
+    hd = draw(s_ham(tier, Lmax=6 if quick else 8, pc=40, Lmin=3, Lmax3=4))
+    L = hd["L"]
+    d = hd.get("d") or hd["S2"] + 1
+    full = d ** (L // 2)
+    bsz = draw(st.sampled_from([1, 2]))
+    # two thirds of the histories never truncate (cap admits every state, cutoff exactly 0.0): only there monotonicity
+    # across calls and "an exact state is not degraded" are claimed
+    untrunc = draw(st.sampled_from([True, True, False]))
+    caps = [c for c in [2, 3, 4, 6, 8, 12, 16] if c <= max(full, 2)]
+    cut_pool = [0.0, 1e-12, 1e-9, 1e-9, 1e-3]
+    if untrunc:
+        bond_dims = draw(st.sampled_from([full, full, full + 2, [full, full + 1]]))
+        cutoffs = draw(st.sampled_from([0.0, 0.0, [0.0, 0.0]])) if bsz == 2 else draw(st.sampled_from(cut_pool))
+    else:
+        bond_dims = draw(st.one_of(st.sampled_from(caps), st.lists(st.sampled_from(caps), min_size=1, max_size=3).map(sorted)))
+        cutoffs = draw(st.one_of(st.sampled_from(cut_pool), st.lists(st.sampled_from(cut_pool), min_size=1, max_size=2)))
+    first_cap = as_seq(bond_dims)[0]
+    p0 = draw(s_p0(d, L, first_cap if bsz == 1 else min(8, full)))
+    opts = draw(st.sampled_from([{}, {}, {"local_eig_tol": 1e-10}, {"local_eig_tol": 1e-10}, {"local_eig_ham_dense": True}]))
+    calls = []
+    for k in range(draw(st.integers(2, 4))):
+        if draw(st.sampled_from([True, True, False])):
+            c = {"op": "solve", "tol_rel": draw(st.sampled_from([1e-4, 1e-6, 1e-9, 0.0])),
+                 "max_sweeps": draw(st.integers(1, 4 if quick else 6)), "sweep_sequence": draw(st.sampled_from(HSEQ))}
+            if k > 0 and one_in(draw, 4):
+                if untrunc:
+                    c["bond_dims"] = draw(st.sampled_from([full + 1, full + 3]))
+                else:
+                    hi = [x for x in caps if bsz == 2 or x >= max(as_seq(bond_dims))] or [max(as_seq(bond_dims))]
+                    c["bond_dims"] = draw(st.sampled_from(hi))
+            if k > 0 and one_in(draw, 4) and not (untrunc and bsz == 2):
+                c["cutoffs"] = draw(st.sampled_from(cut_pool))
+        else:
+            # canonize False stands for "False wherever the docstring allows it (previous sweep went the other way), else True"
+            c = {"op": "sweep", "dir": draw(st.sampled_from(["R", "L"])), "canonize": draw(st.booleans()),
+                 "plain": bool(bsz == 2 and not untrunc and one_in(draw, 4))}
+        calls.append(c)
+    cfg = {"bsz": bsz, "ctor": draw(st.sampled_from(["DMRG", "DMRG%d" % bsz])), "which": draw(st.sampled_from(["SA", "SA", "SA", "LA"])),
+           "bond_dims": bond_dims, "cutoffs": cutoffs, "p0": p0, "seed": draw(A.seeds), "opts": opts}
+    return {"ham": hd, "dmrg": cfg, "calls": calls}
+
+
+def run_manual_sweep(r, call, last_dir):
+    """sweep_right / sweep_left called directly.  Two-site sweeps are given the compression options solve() would inject
+    (`update_opts`, documented pass-through) unless 'plain' (then Tensor.split's own defaults: no cap, cutoff 1e-10)."""
+    dm = r.dm
+    dirn = call["dir"]
+    legal_false = last_dir is not None and last_dir != dirn  # "not needed if doing alternate sweeps"
+    canonize = not (legal_false and not call["canonize"])
+    kw = {}
+    if r.bsz == 2 and not call.get("plain"):
+        cap, cut = int(r.bsched.peek()), float(r.csched.peek())
+        kw = {"max_bond": cap, "cutoff": cut}
+    elif r.bsz == 2:
+        cap, cut = 10 ** 9, 1e-10
+    else:
+        cap, cut = max(r.caps + [r.p0_bond]), 0.0
+    try:
+        E = (dm.sweep_right if dirn == "R" else dm.sweep_left)(canonize=canonize, **kw)
+    except Exception as e:
+        if type(e).__name__ != "ArpackNoConvergence":
+            raise
+        if r.local_eig_tol < 1e-6:
+            raise Reject("ArpackNoConvergence at a user-tightened local_eig_tol")
+        raise Violation("local-eigensolve-failed", bsz=r.bsz, alt_expand_planned=False, which=r.which, msg=str(e)[:80])
+    r.caps.append(cap)
+    r.cuts.append(cut)
+    r.dirs.append(dirn)
+    r.first.append(True)
+    r.converged = None
+    if len(dm.total_energies) != len(r.caps):
+        raise Violation("bookkeeping", what="lengths-after-manual-sweep", total=len(dm.total_energies), want=len(r.caps))
+    return E, canonize
+
+
+def run_history(case):
+    r = prepare(case)
+    dm = r.dm
+    s = r.scale
+    full = r.d ** (r.L // 2)
+    sign = 1.0 if r.which == "SA" else -1.0
+    target = r.evals[0] if r.which == "SA" else r.evals[-1]
+    lo, hi = r.evals[0], r.evals[-1]
+    prev_E = None          # energy the previous call ended with (validated against the dense expectation)
+    prev_conv = False      # the previous call was a solve() that returned True
+    exact = False          # the previous call ended in the exact extremal state
+    last_dir = None
+    nsw = 0
+    worst1 = worst3 = 0.0
+    nt = False
+    cls = []
+    for ci, call in enumerate(case["calls"]):
+        info = dict(call=ci, op=call["op"], bsz=r.bsz, which=r.which, complex_ham=r.complex_ham)
+        if call["op"] == "solve":
+            n = run_solve(r, call)
+            E = dm.energy
+            info["canonize"] = True
+        else:
+            E, can = run_manual_sweep(r, call, last_dir)
+            n = 1
+            info["canonize"] = can
+        new = list(range(nsw, nsw + n))
+        first_dir = r.dirs[new[0]]
+        if ci > 0:
+            resumed = "from-converged" if prev_conv else ("dir-change" if first_dir != last_dir else "same-dir")
+            cls.append("resume:" + resumed)
+            info["resume"] = resumed
+            if prev_conv or first_dir != last_dir:
+                nt = True
+        measure(r, E=E)
+        # (1) reported energy == expectation in the returned state; the reported energy is the last recorded total energy
+        worst1 = max(worst1, check_energy_state(r, **{k: v for k, v in info.items() if k not in ("bsz", "which", "complex_ham")}))
+        if abs(complex(dm.total_energies[-1][-1]) - r.E) > 1e-12 * s:
+            raise Violation("bookkeeping", what="reported-is-last-total", **info)
+        # (4) bond cap
+        if r.bsz == 2:
+            cap = r.caps[-1]
+        else:
+            cap = max(r.caps + [r.p0_bond])
+        if r.max_bond > cap:
+            raise Violation("bond-cap", got=r.max_bond, cap=cap, **info)
+        # (2) every energy recorded by this call lies in the spectrum
+        for k in new:
+            for x in dm.total_energies[k]:
+                x = complex(x)
+                o = max(lo - x.real, x.real - hi, abs(x.imag), 0.0) / s
+                if o > TOL_BOUND:
+                    raise Violation("outside-spectrum", where="sweep", excess=o, sweep=k - nsw, trunc_sweep=not untruncated_sweep(r, k), **info)
+        # (3) no increase across untruncated local updates, chained from the energy the previous call / sweep ended with
+        nmax = min(max(r.caps + [r.p0_bond]), full) ** 2 * r.d ** r.bsz
+        lanczos = r.dense_opt is False or nmax ** 2 >= 2000
+        tol = max(TOL_MONO, r.local_eig_tol) if lanczos else TOL_MONO
+        prev = prev_E
+        all_untr = True
+        for k in new:
+            tots = [complex(x).real for x in dm.total_energies[k]]
+            if untruncated_sweep(r, k):
+                seq = tots if prev is None else [prev] + tots
+                for j, (a, b) in enumerate(zip(seq, seq[1:])):
+                    inc = sign * (b - a) / s
+                    worst3 = max(worst3, inc * (TOL_MONO / tol))
+                    if inc > tol:
+                        raise Violation("energy-increased", inc=inc, tol=tol, sweep=k - nsw, step=j - (0 if prev is None else 1),
+                                        across_calls=bool(k == new[0] and prev is not None and j == 0 and ci > 0), **info)
+            else:
+                all_untr = False
+            prev = tots[-1]
+        # (5) an exact state survives any further untruncated call
+        err_e = abs(r.E - target) / s
+        if exact and all_untr and not err_e <= TOL_EXACT:
+            raise Violation("exact-degraded", err=err_e, **info)
+        exact = bool(err_e <= 1e-9)
+        if exact:
+            cls.append("exact-after-call")
+        prev_E = r.E.real
+        prev_conv = bool(call["op"] == "solve" and r.converged)
+        last_dir = r.dirs[-1]
+        nsw += n
+    base = ["bsz=%d" % r.bsz, "which=" + r.which, "L=%d" % r.L, "d=%d" % r.d, "complex" if r.complex_ham else "real",
+            "calls=" + ">".join(c["op"] for c in case["calls"]),
+            "untruncated-history" if all(untruncated_sweep(r, k) for k in range(nsw)) else "truncating-history"]
+    return {"nt": nt, "err": max(worst1, worst3), "cls": base + sorted(set(cls))}
+
+
+# ---------------------------------------------------------------------------
 
 def _q(fn, **kw):
     return lambda tier: fn(tier, **kw)
@@ -1043,6 +1233,12 @@ SUBCHECKS = [
                   "bonds for one-site, inner tol <= 1e-10), converged at 1e-9: d^L < 45 (all local solves numpy.eigh): |E-lambda|<=1e-6||H|| and "
                   "ground-space weight >= 1-1e-6 (gap above the ground space >= 1e-3||H||); larger (Lanczos): ||H psi - E psi|| <= 1e-6||H||, and "
                   "the full claim unless trapped in an excited eigenstate; nt as RULE and converged and not trapped"),
+    SubCheck("history", run_history, s_case_history, examples=(60, 300), shards=(2, 4),
+             rule="2-4 calls on ONE DMRG object (solve with tol / max_sweeps / sweep_sequence / bond_dims / cutoffs overrides, manual "
+                  "sweep_right / sweep_left with canonize False only after an opposite sweep), DMRG1 and DMRG2, 40% complex; after EVERY call: "
+                  "clause 1 (dense + apply), every newly recorded total energy inside the spectrum, cap, no increase across untruncated updates "
+                  "chained from the energy the previous call ended with, an exact state is not degraded by further untruncated calls; "
+                  "nt: >=2 calls with a later call starting from a converged solve or changing direction"),
     SubCheck("periodic", run_periodic, s_case_periodic, examples=(10, 50), shards=(2, 3),
              rule="cyclic Heisenberg-like chains L 4-6: energy == normalised <psi|H|psi> within 1e-3||H||; nt: all"),
 ]
